@@ -426,3 +426,81 @@ pub proof fn lemma_pas_ext(a: PasswordAlgorithms, b: PasswordAlgorithms)
     assert(a.algorithms@ =~= b.algorithms@);
     axiom_arc_vec_pa_ext(a.algorithms, b.algorithms);
 }
+// bytes written for the first k algorithms of l: every item but the last of the whole list is followed by zero padding to a multiple of 4
+pub open spec fn pas_wire_upto(l: Seq<Algorithm>, k: int) -> Seq<u8>
+    decreases k
+{
+    if k <= 0 { Seq::<u8>::empty() } else {
+        pas_wire_upto(l, k - 1) + pa_wire(l[k - 1]) + (if k < l.len() { zeros(pad4(pa_wire(l[k - 1]).len() as int)) } else { Seq::<u8>::empty() })
+    }
+}
+pub proof fn lemma_pas_upto_mono(l: Seq<Algorithm>, k: int, n: int)
+    requires 0 <= k <= n,
+    ensures pas_wire_upto(l, k).len() <= pas_wire_upto(l, n).len(),
+    decreases n - k,
+{
+    if k < n { lemma_pas_upto_mono(l, k, n - 1); }
+}
+pub open spec fn pas_encodable(l: Seq<Algorithm>) -> bool { forall|k: int| 0 <= k < l.len() ==> pa_plen(#[trigger] l[k]) <= 0xFFFF }
+impl EncodeAttributeValue for PasswordAlgorithms {
+    open spec fn wire(&self, enc: Seq<u8>) -> Seq<u8> { pas_wire_upto(pas_algs(*self), pas_algs(*self).len() as int) }
+    open spec fn encodable(&self, enc: Seq<u8>) -> bool { pas_encodable(pas_algs(*self)) }
+//@item stun_rs :: mod attributes > mod stun > mod password_algorithms > impl EncodeAttributeValue for PasswordAlgorithms > fn encode
+//@tags C01 C02 C14 C03
+//@rules R5P R4P
+//@prefix
+    #[verifier::loop_isolation(false)]
+//@sub "len = attr.encode(attr_ctx)?;" => "let vx_r = attr.encode(attr_ctx); len = vx_r?;"
+//@sub "fill_padding_value(&mut raw_value[size..], padding," => "let vx_f = fill_padding_value(&mut raw_value[size..], padding,"
+//@sub "padding_value)?;" => "padding_value); vx_f?;"
+//@before "let mut size = 0;"
+    let ghost raw0 = ctx.raw_value@;
+    let ghost enc0 = ctx.encoded_msg@;
+    let ghost l = pas_algs(*self);
+    let ghost fin = final(ctx.raw_value)@;
+    proof { axiom_slice_len_limit(&*ctx.raw_value); }
+//@loop 1
+    invariant final(ctx.raw_value)@ == fin, raw0.len() <= usize::MAX, vx_pk@ == self.algorithms@, l == pas_algs(*self), vx_pi <= vx_pk@.len(), l.len() == vx_pk@.len(),
+        ctx.raw_value@.len() == raw0.len(), ctx.encoded_msg@ == enc0, size <= raw0.len(),
+        size == pas_wire_upto(l, vx_pi as int).len(),
+        ctx.raw_value@.subrange(0, size as int) == pas_wire_upto(l, vx_pi as int),
+        forall|j: int| size <= j < raw0.len() ==> ctx.raw_value@[j] == raw0[j],
+        forall|k: int| 0 <= k < vx_pi ==> pa_plen(#[trigger] l[k]) <= 0xFFFF,
+    decreases vx_pk@.len() - vx_pi,
+//@loopstart 1
+    let ghost k0 = vx_pi as int;
+    let ghost size0 = size as int;
+    let ghost rawk = ctx.raw_value@;
+    proof {
+        assert(l[k0] == vx_pk@[k0].0);
+        lemma_pas_upto_mono(l, k0 + 1, l.len() as int);
+        assert(pas_wire_upto(l, k0 + 1).len() >= size0 + pa_wire(l[k0]).len());
+    }
+//@before "len = vx_r?;"
+    proof {
+        // Err: either this algorithm's parameters are too long, or the buffer cannot hold the bytes up to and including it
+        assert(vx_r is Err ==> !(pas_encodable(l) && raw0.len() >= pas_wire_upto(l, l.len() as int).len()));
+    }
+//@before "vx_f?;"
+    proof {
+        assert(pas_wire_upto(l, k0 + 1).len() == size + padding);
+        assert(vx_f is Err ==> !(raw0.len() >= pas_wire_upto(l, l.len() as int).len()));
+    }
+//@before "if vx_pi < vx_pk.len()"
+    proof {
+        assert(ctx.raw_value@.subrange(0, size as int) =~= rawk.subrange(0, size0) + pa_wire(l[k0]));
+    }
+//@loopend 1
+    proof {
+        assert(ctx.raw_value@.subrange(0, size as int) =~= pas_wire_upto(l, k0 + 1));
+    }
+//@stmt "Ok(size)"
+    proof {
+        assert(pas_encodable(l));
+        assert(vx_pi == l.len());
+        assert(size == self.wire(enc0).len());
+        assert(ctx.raw_value@.subrange(0, size as int) == self.wire(enc0));
+        assert(forall|i: int| size <= i < raw0.len() ==> ctx.raw_value@[i] == raw0[i]);
+    }
+//@end
+}
